@@ -420,7 +420,7 @@ def main(ctx):
         ctx.expect_vacuity("replayed k-mer cases with a hit", sum(v for k, v in ctx.classes.items() if k.endswith("/hit")))
     # T ---------------------------------------------------------------------------------------
     bindir = ctx.build_cmds(["obimicrosat", "obikmersimcount", "obikmermatch"])
-    n_ms, n_ks, f_ms, per, f_ks, maxlen_ms, maxlen_ks = (8000, 500, 60, 50, 160, 300, 160) if thorough else (288, 32, 8, 32, 16, 120, 90)
+    n_ms, n_ks, f_ms, per, f_ks, maxlen_ms, maxlen_ks = (8000, 1200, 60, 50, 300, 300, 160) if thorough else (288, 32, 8, 32, 16, 120, 90)
     mtrace = ctx.path("trace_ms.ndjson")
     ctx.harness(["record", "X04", "--out", mtrace, "--n", n_ms, "--opt", "part=ms", "--opt", "maxlen=%d" % maxlen_ms], timeout=900)
     with open(mtrace, "a") as f:
